@@ -411,3 +411,35 @@ def replay(case) -> List[Violation]:
     a, b = (tuple(case["a"][0]), case["a"][1]), (tuple(case["b"][0]), case["b"][1])
     o = _worker_hist([(a, b, case["detail"], case["reuse"])])
     return [Violation(s, m, c) for s, m, c, _ in o["viol"]]
+
+
+# ---------------------------------------------------------------------------------------------
+# environment grid (mc/envgrid.py): the normalised trace and the traced run's result are functions of (configuration, payload)
+
+def env_cases(tier: str):
+    from mc import envgrid
+    from mc.props.c06 import plan as plan06
+
+    jobs = [j for j in plan06("quick") if len(j) == 3]
+    sel = envgrid.pick([j for j in jobs if len(j[0]) <= 2], 20 if tier == "quick" else 150) + envgrid.pick([j for j in jobs if len(j[0]) > 2], 30 if tier == "quick" else 150)
+    from mc.props.c06 import ENV_MANY_KEYS
+
+    sel += [(p, d, None) for p in ENV_MANY_KEYS for d in ("hash", "all", "repr,context")]
+    return [{"prog": list(p), "detail": d, "ctx": cases_for(p)[-1]} for p, d, _ in sel]
+
+
+def env_observe(case):
+    from mc import envgrid, traces
+
+    scratch = envgrid.scratch()
+    prog = tuple(case["prog"])
+    dk = first_accepted_kind(prog)
+    try:
+        plain = untraced(prog, dk, case["ctx"], scratch)
+    except Exception as exc:
+        return {"loader": type(exc).__name__}
+    try:
+        records, files, real, pipe, driver = traces.traced_single(prog, dk, case["ctx"], detail=case["detail"], mode="file", scratch=scratch)
+    except traces.TraceUnreadable as exc:
+        return {"trace": "unreadable"}
+    return envgrid.norm({"untraced": plain, "traced": observe(real), "same": not first_diff(plain, observe(real)), "trace": normalise(records)}, scratch)
